@@ -315,3 +315,43 @@ def run(ctx):  # noqa: F811
     # a controller shared by all samples of a task must start every minimisation from a clean state (shared with C14)
     from .c14 import r14_5
     r14_5(ctx, ctx.model, rid="R22.6")
+
+
+def r22_7(ctx, m):
+    from ..util import cfg_of, known_atoms
+    ctx.rule("R22.7", "distributed sample lists stay distributed: every ResidualSampleList(...) / SampleList(...) constructed in the MPI "
+                      "modules receives a communicator (4th positional argument / comm=), except under a guard that the communicator "
+                      "is None - a list rebuilt without it holds only the rank-local samples and every rank sees a different list", floor=4)
+    n = 0
+    for modn in ("nifty.cl.minimization.kl_energies", "nifty.cl.minimization.sample_list", "nifty.cl.minimization.optimize_kl"):
+        mod = m.module(modn)
+        for fi in mod.all_functions:
+            calls = [c for c in walk_no_nested(fi.node) if isinstance(c, ast.Call) and src(c.func) in ("ResidualSampleList", "SampleList")]
+            if not calls:
+                continue
+            ctx.saw_func(fi)
+            cfg = cfg_of(fi)
+            for c in calls:
+                n += 1
+                nm = src(c.func)
+                pos = 3 if nm == "ResidualSampleList" else 1
+                has = any(k.arg == "comm" for k in c.keywords) or len(c.args) > pos
+                nodes = [nd for nd in cfg.nodes if nd.kind == "stmt" and nd.ast is not None and any(x is c for x in ast.walk(nd.ast))]
+                serial = False
+                if nodes:
+                    serial = any(pol and "comm" in src(t) and src(t).endswith("is None") for t, pol in known_atoms(cfg, nodes[0].id))
+                ctx.check("R22.7", f"{fi.key}::`{short(c, 60)}` keeps the communicator", has or serial,
+                          None if (has or serial) else "no communicator: the new list is local to the task", fi, c)
+    if not n:
+        ctx.und("R22.7", "nifty/cl/minimization::sample list constructions", "none found", "nifty/cl/minimization")
+    # the global index of a task's first sample (shared with C26)
+    from .c26 import r26_4
+    r26_4(ctx, m, rid="R22.8")
+
+
+_run_c22c = run
+
+
+def run(ctx):  # noqa: F811
+    _run_c22c(ctx)
+    r22_7(ctx, ctx.model)
